@@ -1,4 +1,53 @@
-From Dns Require Import Model.NameWire.
-(* placeholder until Proofs/DecodeSafetyProofs.v lands *)
-Theorem placeholder_C02 : unpack_name [] 0 = Err "buf".
-Proof. reflexivity. Qed.
+(* Props/C02.v — property C02: decoding hostile wire input never panics, hangs or
+   over-produces.  Only statements; proofs in Proofs/Decode*Proofs.v.
+
+   All theorems quantify over EVERY octet string [bs] ([wfb bs]: each element is
+   an octet, < 256) — no length bound, no assumption that it is a DNS message.
+   [Panic] is a Go run-time panic (index/slice out of range) in the modelled
+   code; [OutOfFuel] is the exhaustion of one of the model's iteration budgets,
+   which are fixed multiples of the input length (|bs|+1 rounds per list decoder,
+   400 steps per name), so "not OutOfFuel" is the statement that the work is
+   bounded by the input length whatever counts, RDLENGTHs and pointers claim.
+   Real allocation and wall time are measured by the harness (partial). *)
+From Dns Require Import Model.Msg Proofs.DecodeNameProofs Proofs.DecodeFieldsProofs Proofs.DecodeMsgProofs.
+Open Scope N_scope.
+
+(* the name decoder: total, at most 400 loop iterations for any pointer graph *)
+Theorem name_decoder_never_panics_or_hangs :
+  forall (msg : bytes) (off : N),
+    unpack_name msg off <> Panic /\ unpack_name msg off <> OutOfFuel.
+Proof. exact unpack_name_total. Qed.
+
+(* every name it accepts respects the 63/255-octet limits (it is the text of a
+   valid wire name) and the offset it returns lies inside the message *)
+Theorem accepted_names_respect_limits :
+  forall (msg : bytes) (off : N) (r : bytes * N),
+    wfb msg -> unpack_name msg off = Ok r ->
+    exists ls, valid_wire ls = true /\ fst r = show_name ls /\ snd r <= lenN msg.
+Proof. exact unpack_name_accepts_only_valid. Qed.
+
+(* any generated unpack() (any field sequence, so also every type the
+   translator will ever emit): no panic, no exhausted budget, offset in range *)
+Theorem rdata_decoders_are_safe :
+  forall (l : list ufield) (got : rdata) (msg : bytes) (off : N),
+    wfb msg -> off <= lenN msg -> safe off (lenN msg) (unpack_fields l got msg off).
+Proof. exact unpack_fields_safe. Qed.
+
+(* a record decoder result ends inside the input *)
+Theorem record_decoder_is_safe :
+  forall (msg : bytes) (off : N),
+    wfb msg -> off <= lenN msg -> safe off (lenN msg) (unpack_rr msg off).
+Proof. exact unpack_rr_safe. Qed.
+
+(* the message decoder *)
+Theorem message_decoder_never_panics_or_hangs :
+  forall bs : bytes, wfb bs -> unpack_msg bs <> Panic /\ unpack_msg bs <> OutOfFuel.
+Proof. exact unpack_msg_total. Qed.
+
+(* lying section counts: an accepted message holds at most one record per input
+   octet after the header *)
+Theorem accepted_records_bounded_by_input :
+  forall (bs : bytes) (m : msg),
+    wfb bs -> unpack_msg bs = Ok (m, false) ->
+    N.of_nat (length (m_question m) + length (m_answer m) + length (m_ns m) + length (m_extra m)) <= lenN bs - 12.
+Proof. exact accepted_sections_bounded. Qed.
